@@ -7,9 +7,13 @@ import (
 	"fmt"
 	"math/big"
 
+	abci "github.com/tendermint/tendermint/abci/types"
+
 	"github.com/Oneledger/protocol/action"
 	"github.com/Oneledger/protocol/data/balance"
+	"github.com/Oneledger/protocol/data/keys"
 	netwkDeleg "github.com/Oneledger/protocol/data/network_delegation"
+	"github.com/Oneledger/protocol/identity"
 	sv "github.com/Oneledger/protocol/zz_sv"
 )
 
@@ -159,4 +163,78 @@ func SV_C12_handler_step() {
 	for _, h := range []int64{e.height, e.height + 1, e.height + 5} {
 		sv.Assert(d(fmt.Sprint("deleg:p:", h, ":", who)).Sign() == 0 && d(fmt.Sprint("delegRwz:p:", h, ":", who)).Sign() == 0, "entries-of-other-heights-untouched")
 	}
+}
+
+// SV_C12_reward_withdrawal_matures: the whole block-begin reward hook
+// (handleBlockRewards) with pending delegation-reward withdrawals due at this
+// height, whatever the size of the delegation pool.
+//
+// sv:bounds 2 validators (power 1 each, both signed); delegation pool empty or holding 5 OLT with one active delegator; 2 delegators with arbitrary pending reward withdrawals at heights {7, 11} and arbitrary balances; block height 7
+// sv:outside the reward split itself (SV_C13_split, SV_C13_delegation_split); other heights
+// sv:goal every pending withdrawal of this height is paid exactly once to its delegator and cleared, entries of other heights stay, whether or not there is any delegation power
+func SV_C12_reward_withdrawal_matures() {
+	app := svNewApp()
+	svGenesis(app, svDefaultState())
+	ctx := &app.Context
+	ctx.SetBlockStore(sv.BlockStore([]int64{1}, []int64{1600000000}))
+	vs := ctx.validators.WithState(ctx.deliver)
+	var votes []abci.VoteInfo
+	for i := 0; i < 2; i++ {
+		p := svParty_(i)
+		v := identity.NewValidator(p.Addr, p.Addr, p.Pub, p.Pub, *balance.NewAmount(0), fmt.Sprint("node", i))
+		if err := vs.Set(*v); err != nil {
+			sv.Unreachable("validator setup")
+		}
+		votes = append(votes, abci.VoteInfo{Validator: abci.Validator{Address: p.Addr, Power: 1}, SignedLastBlock: true})
+	}
+	if sv.Choice("pool", 2) == 1 {
+		five := new(big.Int).Mul(big.NewInt(5), svWei)
+		svFundOLT(app, keys.Address(netwkDeleg.DELEGATION_POOL_KEY), five)
+		c := svCoin(balance.NewAmountFromBigInt(five))
+		ctx.netwkDelegators.Deleg.WithState(ctx.deliver).WithPrefix(netwkDeleg.ActiveType).Set(svAddr(0), &c)
+	}
+	svFundOLT(app, keys.Address("rewardpool"), new(big.Int).Mul(big.NewInt(1000), svWei))
+	rs := ctx.netwkDelegators.Rewards.WithState(ctx.deliver)
+	bal := ctx.balances.WithState(ctx.deliver)
+	pend := map[string]*big.Int{}
+	bal0 := map[int]*big.Int{}
+	for d := 0; d < 2; d++ {
+		bal0[d] = c12Amount(fmt.Sprint("bal", d)).BigInt()
+		if err := bal.AddToAddress(svAddr(d), svCoin(balance.NewAmountFromBigInt(bal0[d]))); err != nil {
+			sv.Unreachable("setup balance")
+		}
+		for _, h := range []int64{7, 11} {
+			a := c12Amount(fmt.Sprint("rwpend_", h, "_", d))
+			pend[fmt.Sprint(h, "_", d)] = a.BigInt()
+			if err := rs.SetPendingRewards(svAddr(d), a, h); err != nil {
+				sv.Unreachable("setup pending reward")
+			}
+		}
+	}
+	svCommitBlock(app)
+	svFreshDeliver(app)
+	req := RequestBeginBlock{Header: abci.Header{Height: 7, ProposerAddress: svParty_(0).Addr}, LastCommitInfo: abci.LastCommitInfo{Votes: votes}}
+	handleBlockRewards(ctx, req, app.logger)
+	rs = ctx.netwkDelegators.Rewards.WithState(ctx.deliver)
+	bal = ctx.balances.WithState(ctx.deliver)
+	for d := 0; d < 2; d++ {
+		got, err := bal.GetBalanceForCurr(svAddr(d), &svOLT)
+		sv.Assert(err == nil, "balance-readable")
+		want := new(big.Int).Add(bal0[d], pend[fmt.Sprint(7, "_", d)])
+		sv.Assert(got.Amount.BigInt().Cmp(want) == 0, "reward-withdrawal-of-this-height-is-paid-exactly-once")
+		for _, h := range []int64{7, 11} {
+			p, err := rs.GetPendingRewards(svAddr(d), h, 1)
+			sv.Assert(err == nil && len(p.Rewards) <= 1, "pending-readable")
+			left := new(big.Int)
+			if err == nil && len(p.Rewards) == 1 {
+				left = p.Rewards[0].Amount.BigInt()
+			}
+			if h == 7 {
+				sv.Assert(left.Sign() == 0, "matured-reward-entry-cleared")
+			} else {
+				sv.Assert(left.Cmp(pend[fmt.Sprint(h, "_", d)]) == 0, "reward-entries-of-other-heights-untouched")
+			}
+		}
+	}
+	sv.Cover(true, "hook-ran")
 }
